@@ -173,6 +173,11 @@ func genProject(r *rand.Rand, o genOpts) *projSpec {
 					p.Files[filepath.Join(dir, d, "sub", "zz.txt")] = "last of sub v0\n"
 				}
 			}
+			if r.IntN(4) == 0 {
+				// a symbolic link inside the source directory to a file outside it
+				p.Files[filepath.Join(dir, d, "zlink.txt")] = linkMark + "../linked_" + t.Name + ".txt"
+				p.Files[filepath.Join(dir, "linked_"+t.Name+".txt")] = "linked from " + t.Name + " v0\n"
+			}
 			if r.IntN(3) == 0 {
 				p.Files[filepath.Join(dir, d, "en", "msg.txt")] = "hello\n"
 				p.Files[filepath.Join(dir, d, "fr", "other.txt")] = "salut\n"
@@ -441,7 +446,7 @@ func (p *projSpec) inputItems(t *targetSpec) map[string]string {
 		sort.Strings(names)
 		var sb strings.Builder
 		for _, n := range names {
-			fmt.Fprintf(&sb, "%s\x00%s\x00", strings.TrimPrefix(n, rel), p.Files[n])
+			fmt.Fprintf(&sb, "%s\x00%s\x00", strings.TrimPrefix(n, rel), p.fileContent(n))
 		}
 		out["src|"+rel] = sb.String()
 	}
